@@ -214,10 +214,11 @@ func TestSim(t *testing.T) {
 			BudgetIsViolation       bool
 			RaceMode                bool
 			RaceCompanion           string
+			Companions              []string
 		}
 		var l []pi
 		for _, p := range props {
-			l = append(l, pi{p.ID, p.Level, p.Rule, p.QuickRuns, p.ThoroughRuns, p.Real, p.Stub, p.Assumptions, p.BudgetIsViolation, p.RaceMode, p.RaceCompanion})
+			l = append(l, pi{p.ID, p.Level, p.Rule, p.QuickRuns, p.ThoroughRuns, p.Real, p.Stub, p.Assumptions, p.BudgetIsViolation, p.RaceMode, p.RaceCompanion, p.Companions})
 		}
 		sort.Slice(l, func(i, j int) bool { return l[i].ID < l[j].ID })
 		writeJSON(*fOut, l)
